@@ -1,7 +1,7 @@
 (* C04 - amounts print at commodity precision, correctly rounded, and re-read unchanged.
    Property theorems only (proofs: Proofs/RoundProofs.v, Proofs/AmountTextProofs.v). *)
 From LedgerV Require Import Base.Prelude Base.Round Model.Amount Model.AmountText
-  Proofs.RoundProofs Proofs.AmountTextProofs Gen.AmountConsts Gen.InvalidChars.
+  Proofs.RoundProofs Proofs.AmountTextProofs Gen.AmountConsts Gen.InvalidChars Gen.SourceGuards.
 From Coq Require Import Permutation.
 Local Open Scope Z_scope.
 
@@ -134,3 +134,10 @@ Theorem reread_decimal_comma_ambiguous_refuted :
     <> Ok (mkPQ N p false true).
 Proof. exists 310200000, 6. split; [lia|]. split; [lia|]. vm_compute. discriminate. Qed.
 Print Assumptions reread_decimal_comma_ambiguous_refuted.
+
+(* the tie to the source by translation: the lines of /repo/src this model transcribes (harness/translators/src_guards.py
+   lists them, with the function each is looked for in) are still there, in the same order, in the source as it is NOW -
+   coq/Gen/SourceGuards.v is regenerated on every run and names the guards that are false *)
+Theorem model_transcribes_current_source : forallb (fun b => b) src_guards_C04 = true.
+Proof. vm_compute. reflexivity. Qed.
+Print Assumptions model_transcribes_current_source.
